@@ -45,6 +45,11 @@ var c19Perms = permutations(5)
 // c19Hashes writes the list built from (seed) with every writer and returns "name=hash" per writer (errors included)
 func c19Hashes(seed uint64) []string {
 	s := richSubtitles(fw.NewRand(seed))
+	if s.Metadata != nil && seed%2 == 0 {
+		// every language the library has a code for comes up in the lists compared across processes (a table built
+		// at start-up in an order of its own would give another code in another process)
+		s.Metadata.Language = []string{astisub.LanguageNorwegian, astisub.LanguageChinese, astisub.LanguageNorwegian, astisub.LanguageJapanese, astisub.LanguageNorwegian, astisub.LanguageFrench, astisub.LanguageNorwegian, astisub.LanguageEnglish}[seed/2%8]
+	}
 	var out []string
 	for _, w := range allWriters {
 		b, err, p := writeBytes(w, s)
